@@ -23,6 +23,9 @@ var c10perms = [6][3]int{{0, 1, 2}, {1, 2, 0}, {2, 0, 1}, {1, 0, 2}, {0, 2, 1}, 
 
 // c10Check evaluates both entry points on all six argument orders of one triple.
 func c10Check(c *fw.Ctx, pts [3][2]float64, class string) {
+	if c.R.Chance(1, 64) {
+		xyRefusedCalls(c)
+	}
 	c.SetInput(map[string]any{"class": class, "o": fw.Fs(pts[0][:]), "e": fw.Fs(pts[1][:]), "p": fw.Fs(pts[2][:])})
 	want := exact.OrientF(pts[0][0], pts[0][1], pts[1][0], pts[1][1], pts[2][0], pts[2][1])
 	// hardness: is the floating-point filter unable to decide?
@@ -51,6 +54,14 @@ func c10Check(c *fw.Ctx, pts [3][2]float64, class string) {
 			w = -want
 		}
 		o, e, p := geom.Coord(pts[pm[0]][:]), geom.Coord(pts[pm[1]][:]), geom.Coord(pts[pm[2]][:])
+		if pi == 0 || pi == 3 {
+			// (pts is this function's copy) some zero ordinates become -0
+			for i := range pts {
+				if negZeros(c.R, pts[i][:], 2) {
+					c.Count("ordinates_written_as_negative_zero")
+				}
+			}
+		}
 		if reuse {
 			// the caller keeps three coordinate buffers and overwrites them from
 			// call to call: an implementation that remembers a slice it was given
